@@ -459,6 +459,9 @@ def o_estimate(inp):
     if not err <= TOL:
         ret = np.asarray(res).real
         kind = 'identity-fallback' if (ret.shape == (4,) and np.array_equal(ret, [1.0, 0.0, 0.0, 0.0])) else _bucket(err)
+        special = _ratio_tag(est, inp['sa'] * 9.80665, inp['sm'], kind) if est in ('davenport', 'davenport_vec') else None
+        if special:
+            return {'tag': special, 'observed': {'angle_error_rad': err, 'returned': ret}, 'expected': {'rotation': exp, 'tolerance_rad': TOL}}
         return {'tag': f'{est}/{kind}', 'observed': {'angle_error_rad': err, 'returned': ret},
                 'expected': {'rotation': exp, 'tolerance_rad': TOL}}
     if form == 'estimate' and inp.get('twice'):
@@ -602,7 +605,69 @@ def o_reuse(inp):
     return None
 
 
-ORACLES = {'estimate': o_estimate, 'acc2q': o_acc2q, 'triad_dip': o_triad_dip, 'oleq_fixed': o_oleq_fixed, 'reuse': o_reuse}
+def _default_table():
+    """estimators built with NO reference argument: class -> (make, refs(obj) -> (g, m) as stored, estimate, ret)"""
+    import ahrs
+    Fl = ahrs.filters
+    est = lambda o, a, m: o.estimate(a, m)
+    return {
+        'TRIAD': (lambda: Fl.TRIAD(), lambda o: (o.v1, o.v2), est, 'RT'),
+        'TRIAD_ENU': (lambda: Fl.TRIAD(frame='ENU'), lambda o: (o.v1, o.v2), est, 'RT'),
+        'Davenport': (lambda: Fl.Davenport(), lambda o: (o.g_q, o.m_q), est, 'q'),
+        'QUEST': (lambda: Fl.QUEST(), lambda o: (o.g_q, o.m_q), est, 'q'),
+        'FLAE_eig': (lambda: Fl.FLAE(), lambda o: (o.ref[0], o.ref[1]), lambda o, a, m: o.estimate(a, m, method='eig'), 'q'),
+        'FLAE_newton': (lambda: Fl.FLAE(), lambda o: (o.ref[0], o.ref[1]), lambda o, a, m: o.estimate(a, m, method='newton'), 'q'),
+        'FQA': (lambda: Fl.FQA(), lambda o: (_f(DOWN), o.m_ref), lambda o, a, m: o.estimate(a, np.array(m, dtype=float)), 'q'),
+        'OLEQ': (lambda: Fl.OLEQ(), lambda o: (o.a_ref, o.m_ref), est, 'q'),
+        'OLEQ_ENU': (lambda: Fl.OLEQ(frame='ENU'), lambda o: (o.a_ref, o.m_ref), est, 'q'),
+    }
+
+
+def _ratio_tag(name, wa, wm, kind):
+    """Davenport neither normalises its inputs nor its references: the two observations enter K with weights
+    |acc|*|g_ref| and |mag|*|m_ref|; binary64 resolves the smaller one only while the ratio stays below ~1e7.
+    The failure kind stays in the tag, so that anything other than the recorded small loss of accuracy is still reported."""
+    r = max(wa, wm) / max(min(wa, wm), 1e-300)
+    return f'{name}/weight-ratio>=1e7-{kind}' if r >= 1e7 else None
+
+
+def o_default_refs(inp):
+    """estimator constructed WITHOUT reference arguments; measurements = images of the references the object itself
+    stores (directions), with independent magnitudes |acc| = sa, |mag| = sm over many decades"""
+    cls = inp['cls']
+    make, refs, est, ret = _default_table()[cls]
+    q = _f(inp['q'])
+    R = cm.Rspec(q)
+    with warnings.catch_warnings():
+        warnings.simplefilter('ignore')
+        with np.errstate(all='ignore'):
+            o = make()
+            g, mr = (_f(t) for t in refs(o))
+            a = inp['sa'] * (R.T @ (g / np.linalg.norm(g)))
+            m = inp['sm'] * (R.T @ (mr / np.linalg.norm(mr)))
+            rnd = np.random.random
+            if cls.startswith('OLEQ'):
+                np.random.random = lambda n=None: q + 0.5          # start at the fixed point (the iteration cap is a recorded finding)
+            try:
+                res = est(o, a.copy(), m.copy())
+            finally:
+                np.random.random = rnd
+    exp = R if ret == 'q' else R.T
+    Rr = _as_rot(res, ret) if res is not None else 'None'
+    wts = (inp['sa'] * np.linalg.norm(g), inp['sm'] * np.linalg.norm(mr))
+    if isinstance(Rr, str):
+        return {'tag': f'{cls}/default-refs-not-an-attitude', 'observed': res, 'note': Rr}
+    err = _angle(Rr, exp)
+    if not err <= TOL:
+        r = np.asarray(res).real
+        kind = 'identity-fallback' if (r.shape == (4,) and np.array_equal(r, [1.0, 0.0, 0.0, 0.0])) else _bucket(err)
+        special = _ratio_tag(cls, wts[0], wts[1], kind) if cls == 'Davenport' else None
+        return {'tag': special or f'{cls}/default-refs-{kind}', 'observed': {'angle_error_rad': err, 'returned': r, 'acc': a, 'mag': m},
+                'expected': {'rotation': exp, 'tolerance_rad': TOL}}
+    return None
+
+
+ORACLES = {'default_refs': o_default_refs, 'estimate': o_estimate, 'acc2q': o_acc2q, 'triad_dip': o_triad_dip, 'oleq_fixed': o_oleq_fixed, 'reuse': o_reuse}
 
 
 def _call(f, inp, name):
@@ -686,6 +751,19 @@ def search(ctx, scale):
         for fr in ('NED', 'ENU'):
             inp = dict(q=_f(q).tolist(), frame=fr, **draw())
             ctx.check('triad_dip', inp, _call(o_triad_dip, inp, f'triad_dip_{fr}'), nontrivial_key=('triad_dip', fr, tuple(np.round(q, 5))))
+    # 8. independent magnitudes over many decades (sensor units: g / m/s^2, Tesla / Gauss / uT / nT), explicit and default references
+    AN, MN = (1e-3, 1.0, 9.81, 1e3), (1e-9, 0.5, 48.0, 4.8e4, 1e6)
+    for i in range(2 * scale):
+        q = _gp_quat(rng)
+        for sa in AN:
+            for sm in MN:
+                d = draw()
+                for est in names:
+                    inp = dict(est=est, q=q.tolist(), form='estimate', **{**d, 'sa': sa, 'sm': sm})
+                    ctx.check('estimate', inp, _call(o_estimate, inp, est), nontrivial_key=(est, 'decades', sa, sm, i))
+                for cls in _default_table():
+                    inp = dict(cls=cls, q=q.tolist(), sa=sa, sm=sm)
+                    ctx.check('default_refs', inp, _call(o_default_refs, inp, cls), nontrivial_key=(cls, 'default', sa, sm, i))
     # 7. object re-use after re-assigning references / weights (declinations, other plane, other weights)
     for i in range(6 * scale):
         q0, q = _gp_quat(rng), _gp_quat(rng)
